@@ -573,6 +573,10 @@ func runClose(sc scenario, work string) (res result) {
 		}
 	}
 	pendingAtClose := p.sleepers()
+	snap, err := p.d.snap() // before Close: afterwards the muxer mutex may be gone for good (F1)
+	if fail(err) {
+		return
+	}
 	nstreams := sc.Cfg.Streams
 	if sc.Cfg.Variant == "MPEGTS" {
 		nstreams = 1
@@ -682,10 +686,6 @@ func runClose(sc scenario, work string) (res result) {
 		p.items = append(p.items, after...)
 	}
 	// ---- after Close returned ----
-	snap, err := p.d.snap()
-	if fail(err) {
-		return
-	}
 	wasPending := map[int]bool{}
 	for _, i := range pendingAtClose {
 		wasPending[i] = true
